@@ -33,6 +33,7 @@ type lifePool struct {
 	gate        chan struct{} // when set, Connect announces itself on entered and waits for the gate
 	entered     chan struct{}
 	updateDelay time.Duration // how long the pool takes to answer a keep-alive
+	failed      int64         // keep-alives refused so far
 }
 
 func (p *lifePool) Host(ctx context.Context, r pool.HostRequest) (*pool.HostResponse, error) {
@@ -70,6 +71,7 @@ func (p *lifePool) Update(ctx context.Context, r pool.UpdateRequest) (*pool.Upda
 	p.mu.Lock()
 	defer p.mu.Unlock()
 	if p.updateFail {
+		atomic.AddInt64(&p.failed, 1)
 		return nil, errors.New("pool fails the keep-alive")
 	}
 	return &pool.UpdateResponse{Balance: &store.Balance{}}, nil
@@ -83,15 +85,20 @@ const c20Interval = 25 * time.Millisecond
 
 // measureLoops estimates the number of live keep-alive loops from the keep-alive rate.
 func measureLoops(p *lifePool) (int, float64) {
-	for try := 0; try < 3; try++ {
+	for try := 0; try < 4; try++ {
 		start := atomic.LoadInt64(&p.updates)
 		t0 := time.Now()
 		time.Sleep(12 * c20Interval)
 		n := atomic.LoadInt64(&p.updates) - start
 		rate := float64(n) / (float64(time.Since(t0)) / float64(c20Interval))
 		switch {
-		case rate < 0.35:
-			return 0, rate
+		case n == 0:
+			// a loop that is gone sends nothing at all: confirm over a second window (a loop that is
+			// merely slow on a loaded machine sends something)
+			time.Sleep(12 * c20Interval)
+			if atomic.LoadInt64(&p.updates) == start {
+				return 0, 0
+			}
 		case rate > 0.6 && rate < 1.4:
 			return 1, rate
 		case rate > 1.65 && rate < 2.5:
@@ -218,13 +225,19 @@ func c20Sequence(ctx *Ctx, i int, rng *rand.Rand) {
 			if loops == 0 {
 				continue
 			}
+			failedBefore := atomic.LoadInt64(&lp.failed)
 			lp.mu.Lock()
 			lp.updateFail = true
 			lp.mu.Unlock()
-			time.Sleep(4 * c20Interval)
+			// until every live loop has had its keep-alive refused (a loaded machine may take longer
+			// than a few intervals to run the tick)
+			for t0 := time.Now(); atomic.LoadInt64(&lp.failed) < failedBefore+int64(loops) && time.Since(t0) < 3*time.Second; {
+				time.Sleep(c20Interval / 2)
+			}
 			lp.mu.Lock()
 			lp.updateFail = false
 			lp.mu.Unlock()
+			time.Sleep(2 * c20Interval) // the loop's goroutine winds down
 			emit("pool-fails-keepalive", "LTickFail", "(RTick 1)", 0)
 			waitq += loops
 			loops = 0
@@ -518,6 +531,23 @@ func c20Cadence(ctx *Ctx, i int) {
 	lp.mu.Unlock()
 	a.Stop()
 	a.Wait()
+	// the same agent, reconfigured while stopped, started again: the new interval is the one in force
+	const second = 40 * time.Millisecond
+	a.UpdateInterval = second
+	if err := a.Start(lp); err != nil {
+		mon = append(mon, fmt.Sprintf("c20-restart-refused: after Stop and Wait the agent could not be started again: %v", err))
+	} else {
+		start2 := atomic.LoadInt64(&lp.updates)
+		t1 := time.Now()
+		time.Sleep(30 * second)
+		sent2 := atomic.LoadInt64(&lp.updates) - start2
+		iv2 := float64(time.Since(t1)) / float64(second)
+		a.Stop()
+		a.Wait()
+		if float64(sent2) < 0.5*iv2 || float64(sent2) > 1.6*iv2 {
+			mon = append(mon, fmt.Sprintf("c20-restart-interval: the agent ran with --update-interval %s, was stopped, reconfigured to %s and started again: %d keep-alives in %.1f intervals of %s: the configured interval is not the one in force", interval, second, sent2, iv2, second))
+		}
+	}
 	if float64(sent) < 0.72*intervals {
 		mon = append(mon, fmt.Sprintf("c20-keepalive-period: with --update-interval %s and a pool that answers each keep-alive after %s, %d keep-alives were sent in %.1f intervals: the period is the interval plus the time the pool takes, so an accepted interval close to the expiry window no longer keeps the node active", interval, interval*9/10, sent, intervals))
 	}
